@@ -1051,6 +1051,8 @@ class Prims:
         R("math.prod", self.m_prod)
         R("typing.cast", lambda ex, st, a, k, n: a[1])  # dropped by extraction: cast(T, x) -> x
         R("numpy.concatenate", lambda ex, st, a, k, n: seq_concat(a[0][0], a[0][1]) if len(a[0]) == 2 else (_ for _ in ()).throw(Unsupported("concatenate of other than two arrays")))
+        R("numpy.isnan", self.m_isnan)
+        R("numpy.nan_to_num", self.m_nan_to_num)
         R("builtins.slice", lambda ex, st, a, k, n: slice(*a))
         R("numpy.add", lambda ex, st, a, k, n: self.m_ufunc2(ex, st, ast.Add(), a, k, n))
         R("numpy.subtract", lambda ex, st, a, k, n: self.m_ufunc2(ex, st, ast.Sub(), a, k, n))
@@ -1203,6 +1205,33 @@ class Prims:
         if isinstance(x, SSeq):
             return x.map(lambda v: self.contains(ex, st, test, v), B)
         raise Unsupported("isin on a concrete sequence")
+
+    def m_isnan(self, ex, st, a, k, node):
+        """np.isnan elementwise on extended reals (ASSUMED)"""
+        from . import valsort as V
+
+        x = a[0]
+        if isinstance(x, SSeq):
+            if x.elem_sort == V.Val:
+                return x.map(lambda v: V.is_nan(v), B)
+            return x.map(lambda v: z3.BoolVal(False), B)  # integers / reals of the model are never NaN
+        if is_sym(x) and x.sort() == V.Val:
+            return V.is_nan(x)
+        raise Unsupported("np.isnan of this value")
+
+    def m_nan_to_num(self, ex, st, a, k, node):
+        """np.nan_to_num(x, nan=v, posinf=None, neginf=None): NaN -> v, and - unless told otherwise - +inf / -inf -> the largest /
+        smallest finite float64"""
+        from . import valsort as V
+
+        x = a[0]
+        if not (isinstance(x, SSeq) and x.elem_sort == V.Val):
+            raise Unsupported("np.nan_to_num of this value")
+        big = z3.RealVal("179769313486231570814527423731704356798070567525844996598917476803157260780028538760589558632766878171540458953514382464234321326889464182768467546703537516986049910576551282076245490090389328944075868508455133942304583236903222948165808559332123348274797826204144723168738177180919299881250404026184124858368")
+        nanv = V.as_val(k.get("nan", 0.0))
+        pos = V.as_val(k["posinf"]) if k.get("posinf") is not None else V.fin(big)
+        neg = V.as_val(k["neginf"]) if k.get("neginf") is not None else V.fin(-big)
+        return x.map(lambda v: z3.If(V.is_nan(v), nanv, z3.If(V.is_pinf(v), pos, z3.If(V.is_ninf(v), neg, v))), V.Val)
 
     def m_ufunc2(self, ex, st, op, a, k, node):
         """np.add / np.subtract (ASSUMED elementwise); with out= and where=: positions where the mask is false keep out's content"""
